@@ -47,7 +47,7 @@ def gen_ballots(d, nc, cands, maxlines, equal=False, bigmult=False, nseats=1):
     """a mixture of ballot shapes (DESIGN section 3): parties, mirrored pairs, quota landing,
     bullet votes, short ballots, uniform partial rankings"""
     ballots = []
-    nlines = d.int(1, maxlines)
+    nlines = d.int(1, maxlines) if d.p(15) else d.int(min(3, maxlines), maxlines)
 
     def mult():
         if bigmult and d.p(5):
@@ -65,9 +65,16 @@ def gen_ballots(d, nc, cands, maxlines, equal=False, bigmult=False, nseats=1):
             if pool[prev:c]:
                 parties.append(pool[prev:c])
             prev = c
+    leaders = d.sample(cands, min(nc, max(1, nseats))) if d.p(55) else []
     while len(ballots) < nlines:
         t = d.int(0, 9)
-        if parties and t <= 4:
+        if leaders and t <= 5 and not parties:
+            # concentrated first preferences: leaders collect surpluses that then chain through the same ballots
+            ld = d.choice(leaders)
+            rest = [c for c in cands if c != ld]
+            r = [ld] + d.sample(rest, d.int(0, len(rest)))
+            ballots.append([mult() + d.int(0, 4), [[c] for c in r]])
+        elif parties and t <= 4:
             party = d.choice(parties)
             r = d.perm(party)
             if d.p(50):
@@ -122,7 +129,7 @@ def gen_ballots(d, nc, cands, maxlines, equal=False, bigmult=False, nseats=1):
 
 
 def election_core(d, size, equal=False, undeclared=False, withdrawn=True, min_cand=1, names='plain'):
-    nc = max(min_cand, d.small(1, size['maxc']) if d.p(30) else d.int(min(2, size['maxc']), size['maxc']))
+    nc = max(min_cand, d.int(1, size['maxc']) if d.p(12) else d.int(min(3, size['maxc']), size['maxc']))
     cands = list(range(1, nc + 1))
     wd = []
     if withdrawn and nc >= 2 and d.p(25):
@@ -130,7 +137,7 @@ def election_core(d, size, equal=False, undeclared=False, withdrawn=True, min_ca
         if len(wd) >= nc:
             wd = wd[:nc - 1]
     el = [c for c in cands if c not in wd]
-    ns = d.small(1, len(el)) if d.p(60) else d.int(1, len(el))
+    ns = d.int(1, max(1, len(el) - 2)) if d.p(75) else d.int(1, len(el))
     und = []
     if undeclared and d.p(40):
         und = [c for c in cands if d.p(30)]
